@@ -82,6 +82,13 @@ impl Trace {
         if !rng.chance(1, 8) || self.stream.insts.is_empty() {
             return self;
         }
+        if rng.chance(1, 5) {
+            // the medium delivers one instruction twice in a row (both copies must come back)
+            let j = rng.usize_below(self.stream.insts.len());
+            let copy = self.stream.insts[j].clone();
+            self.extra.push(Extra::Stray(j + 1, copy));
+            return self;
+        }
         if rng.chance(1, 4) {
             // an OpLine / OpNoLine inside a function but outside any block (where the data representation has no place
             // for it), directly followed by a stray body instruction: the loader must reject that instruction
